@@ -97,6 +97,10 @@ def run(tier, seed):
                  nontrivial=lambda e: not (e.get("n") == 1 and e.get("zm") == 0 and
                                            e.get("pairs", [{}])[0].get("a", {}).get("d") == [1, 0, 0, 0, 0, 0, 0, 0]),
                  min_per_shard=8, tlc_timeout=2400, heap="4g")
+        # the final exponentiation as a function of its own (out of place, in place, through pc_exp): stateless events
+        ecases = ["exp %d 0 0 %x" % (pid, rng.getrandbits(64) | 1) for pid in pair_ids for _ in range(3 if quick else 12)]
+        conf.run("finalexp-" + cfg, cfg, "pp", ["drv_pp.c"], ecases, "trace/PpExpTrace.tla",
+                 nontrivial=lambda e: e.get("op") == "expo", min_per_shard=1, tlc_timeout=2400, heap="4g")
     return conf.finish()
 
 
